@@ -112,6 +112,15 @@ func aliasState(j *jobCtx, u Universe, path []Call) {
 			var s reflect.Value
 			ci := invoke(e, func() {
 				s, _ = callSlice(y, method)
+				// the caller owns the returned slice up to its capacity (append writes there): the cells beyond the length
+				// are written first, and the whole slice - length and spare capacity - must then stay what it is
+				if s.Kind() == reflect.Slice && !s.IsNil() {
+					full := s.Slice(0, s.Cap())
+					for i := s.Len(); i < full.Len(); i++ {
+						full.Index(i).Set(poison(s.Type().Elem(), i%7))
+					}
+					s = full
+				}
 				e["snap0"] = sliceAny(s)
 				y.Do(c)
 				// a second mutation, so that memory freed by the first can be reused
